@@ -1,9 +1,38 @@
-import Fpdec.Lemmas.Dom
+import Fpdec.Lemmas.Unary
 import Fpdec.Props.C14_Sites
 
-/-! # C14 — property theorems (under construction: see DESIGN.md section 6) -/
+/-!
+# C14 — Integer conversions are exact and total with precise error kinds
+
+* `from_int_spec`, `try_from_u128_spec`: `Decimal::from(i)` is `(i, 0)`; `try_from(u128)` fails with `InternalOverflow` exactly
+  above `i128::MAX`.
+* `into_int_spec`: `T::try_from(d)` for the ten primitive integer types returns `Ok v` exactly when the value of `d` is the integer
+  `v ∈ T` (also when written with trailing fractional zeros), `NotAnIntValue` exactly when the value is not integral — whatever its
+  range — and `ValueOutOfRange` otherwise; `spec_meaning` says what the spec means without reference to the code.
+No function here takes a build-profile argument.
+-/
 
 namespace Fpdec.Props.C14
 open Fpdec Fpdec.Model
+
+theorem from_int_spec (i : Int) : fromInt i = ⟨i, 0⟩ := rfl
+
+theorem try_from_u128_spec (i : Nat) :
+    tryFromU128 i = if (i : Int) ≤ I128_MAX then some ⟨i, 0⟩ else none := tryFromU128_spec i
+
+theorem into_int_spec (t : IntTy) (ht : IsTargetTy t) (d : Dec) (hd : Dom d) :
+    intoInt t d = .ok (match Spec.intoInt t d.coeff d.nfrac with
+      | .ok v => .ok v
+      | .error false => .error .notAnInt
+      | .error true => .error .outOfRange) := intoInt_spec t ht d hd
+
+theorem spec_meaning (t : IntTy) (a : Int) (p : Nat) :
+    (∀ v, Spec.intoInt t a p = .ok v ↔ (a = v * (10 : Int) ^ p ∧ t.fits v = true)) ∧
+    (Spec.intoInt t a p = .error false ↔ ¬ ∃ v : Int, a = v * (10 : Int) ^ p) := spec_intoInt_meaning t a p
+
+/-! ### non-vacuity -/
+example : intoInt IntTy.i128 ⟨100, 2⟩ = .ok (.ok 1) ∧ intoInt IntTy.u8 ⟨25600, 2⟩ = .ok (.error .outOfRange) := by decide
+example : intoInt IntTy.u128 ⟨-15, 1⟩ = .ok (.error .notAnInt) ∧ intoInt IntTy.u128 ⟨-10, 1⟩ = .ok (.error .outOfRange) := by
+  decide
 
 end Fpdec.Props.C14
